@@ -29,17 +29,17 @@ type astCase struct {
 }
 
 type astBad struct {
-	ID    int      `json:"id"`
-	Mode  string   `json:"mode"`
-	Kind  string   `json:"kind"` // obs_mismatch | final_mismatch | panic
-	Step  int      `json:"step"`
-	Op    string   `json:"op"`
-	Want  string   `json:"want"`
-	Got   string   `json:"got"`
-	Doc   string   `json:"doc"`
-	Text  string   `json:"text"`
-	Seq   []string `json:"seq"`
-	Sig   map[string]string `json:"sig"`
+	ID   int               `json:"id"`
+	Mode string            `json:"mode"`
+	Kind string            `json:"kind"` // obs_mismatch | final_mismatch | panic
+	Step int               `json:"step"`
+	Op   string            `json:"op"`
+	Want string            `json:"want"`
+	Got  string            `json:"got"`
+	Doc  string            `json:"doc"`
+	Text string            `json:"text"`
+	Seq  []string          `json:"seq"`
+	Sig  map[string]string `json:"sig"`
 }
 
 type astRes struct {
